@@ -10,9 +10,13 @@ pub(crate) struct AppCounters {
 
 impl AppCounters {
     pub(crate) fn from_update_interval(update: i64) -> Self {
+        let now = chrono::Utc::now();
         AppCounters {
             df_count: BTreeMap::new(),
-            timestamp: chrono::Utc::now() + chrono::Duration::seconds(update),
+            // an interval too large for chrono simply never elapses
+            timestamp: chrono::Duration::try_seconds(update)
+                .and_then(|interval| now.checked_add_signed(interval))
+                .unwrap_or(now),
             cleanup_count: 0u32,
         }
     }
